@@ -466,17 +466,13 @@ fn parse_external_id(s: &mut Stream) -> Result<bool> {
         let id = s.slice_back(start);
 
         s.consume_spaces()?;
-        let quote = s.consume_quote()?;
-        let _ = s.consume_bytes(|c| c != quote);
-        s.consume_byte(quote)?;
+        parse_external_literal(s)?;
 
         if id == "SYSTEM" {
             // Ok
         } else {
             s.consume_spaces()?;
-            let quote = s.consume_quote()?;
-            let _ = s.consume_bytes(|c| c != quote);
-            s.consume_byte(quote)?;
+            parse_external_literal(s)?;
         }
 
         true
@@ -485,6 +481,16 @@ fn parse_external_id(s: &mut Stream) -> Result<bool> {
     };
 
     Ok(v)
+}
+
+// SystemLiteral ::= ('"' [^"]* '"') | ("'" [^']* "'")
+// PubidLiteral  ::= '"' PubidChar* '"' | "'" (PubidChar - "'")* "'"
+fn parse_external_literal(s: &mut Stream) -> Result<()> {
+    let quote = s.consume_quote()?;
+    let start = s.pos();
+    let value = s.consume_bytes(|c| c != quote);
+    is_xml_str(value, start, s)?;
+    s.consume_byte(quote)
 }
 
 // EntityDecl  ::= GEDecl | PEDecl
